@@ -197,6 +197,36 @@ theorem LBuf.runStop_err (ops : List Op) : ∀ (b : LBuf), (∀ o ∈ ops, o.isW
           (by simp only [opsSize] at hover; simp only; omega)
         simp [this, LBuf.reset]
 
+/-! ### Sequencing -/
+
+theorem OutBuf.apply_limit (b : OutBuf) (o : Op) : (b.apply o).1.limit = b.limit := by
+  cases ho : o.isWrite
+  · cases o <;> simp [Op.isWrite] at ho
+    rfl
+  · rw [apply_write b o ho]; split <;> rfl
+
+theorem OutBuf.runStop_limit (ops : List Op) : ∀ b : OutBuf, (b.runStop ops).1.limit = b.limit := by
+  induction ops with
+  | nil => intro b; rfl
+  | cons o t ih =>
+    intro b
+    simp only [runStop]
+    split
+    · exact apply_limit b o
+    · rw [ih, apply_limit]
+
+theorem OutBuf.runStop_append (pre rest : List Op) : ∀ b : OutBuf, (b.runStop pre).2 = false →
+    b.runStop (pre ++ rest) = (b.runStop pre).1.runStop rest := by
+  induction pre with
+  | nil => intro b _; rfl
+  | cons o t ih =>
+    intro b h
+    simp only [runStop, List.cons_append] at h ⊢
+    by_cases hf : (b.apply o).2 = true
+    · simp [hf] at h
+    · simp only [hf] at h ⊢
+      exact ih _ (by simpa using h)
+
 /-! ### `prepareMessage` evaluated -/
 
 theorem prepare_of_over (limit : Nat) (ops : List Op) (hw : ∀ o ∈ ops, o.isWrite = true) (hne : ops ≠ [])
